@@ -341,6 +341,14 @@ class P(Prop):
         for _ in range(20):
             yield W.gen_world(rng)
 
+    def search_cases(self, rng):
+        """failing-input search after a broken correspondence: three more draws of the quick generators (the thorough
+        generator enumerates 11 000 three-operation histories and 80 000 random ones: too slow for the every-change run)"""
+        out = []
+        for _ in range(3):
+            out += [c for c in self.cases(rng, "quick") if c.get("kind") not in ("enum", "world-enum")]
+        return out
+
     # ---------------------------------------------------------------- dispatch: single-track cases / world histories
     def impl(self, case):
         return self.w_impl(case) if "hist" in case else self.impl1(case)
@@ -626,34 +634,37 @@ class P(Prop):
 
     def w_check(self, sym, op, rec):
         kind, k = op[0], op[1]
+        if sym.lost:
+            return None
         ok = sym.ok(k)
         mono = sym.monotone(k)
         info = sym.apply(op)                 # bookkeeping: positions / stamps after edits, names, slots, validity
         ids = sym.tracks[k]["ids"]
         n = len(ids)
         heap = rec["heap"]
-        if kind in W.NEW_OPS and not sym.tainted:
+        if kind in W.NEW_OPS:
             # which objects the new track references is the implementation's business (sharing or copying is not part of
-            # this property): adopt its numbering, provided the fixes are the designated ones
+            # this property): adopt its numbering, provided the fixes are the designated ones; otherwise the oracle no
+            # longer knows which object is which and stops
             if "err" in rec or not isinstance(rec.get("r"), list) or len(rec["r"]) != len(sym.tracks[-1]["ids"]):
-                sym.tainted = True
+                sym.lost = True
             else:
                 want = sym.tracks[-1]["ids"]
                 for j, h in enumerate(rec["r"]):
                     if h >= len(sym.pos):
                         if h != len(sym.pos) or h >= len(heap):
-                            sym.tainted = True
+                            sym.lost = True
                             break
                         sym.pos.append(list(sym.pos[want[j]]))
                         sym.fld.append(dict(sym.fld[want[j]]))
                         sym.slots.append(heap[h]["nf"])
                     elif sym.pos[h] != sym.pos[want[j]] or sym.fld[h] != sym.fld[want[j]]:
-                        sym.tainted = True
+                        sym.lost = True
                         break
-                if not sym.tainted:
+                if not sym.lost:
                     sym.tracks[-1]["ids"] = list(rec["r"])
-            if sym.tainted:
-                return None
+        if sym.lost:
+            return None
         # computing, reading, deriving tracks: positions and timestamps of EVERY observation stay what the history made them
         if len(heap) < len(sym.pos):
             return "%d observations exist, %d expected" % (len(heap), len(sym.pos))
